@@ -108,7 +108,7 @@ def absorb(ctx, rep, label, devs):
     for n in rep.get("notes") or []:
         ctx.extra.setdefault("notes", []).append(n)
     ex = rep.get("extra") or {}
-    for k in ("text_drift", "deviation_changes_text_only"):
+    for k in ("text_drift", "deviation_changes_text_only", "known_outcome_but_other_text"):
         if k in ex:
             ctx.extra[k] = ctx.extra.get(k, 0) + ex[k]
 
@@ -156,6 +156,8 @@ def judge_verdicts(ctx, verdicts, recs, devs, label):
             continue
         if v.get("known") and v.get("kdevs"):
             note_known(ctx, "+".join(sorted(v["kdevs"])), devs)
+            if not v.get("textK"):
+                ctx.extra["known_outcome_but_other_text"] = ctx.extra.get("known_outcome_but_other_text", 0) + 1
             continue
         bad = [a for a in ("back", "jdec", "mread", "mjson") if not v["strict"][a]]
         ctx.violations.append({"from": label,
@@ -200,7 +202,7 @@ def run(ctx):
     rep = replay(ctx, vecs, uni, devs)
     absorb(ctx, rep, "replay", devs)
     ctx.extra["vectors"] = len(vecs)
-    rep, out = record(ctx, uni, 20000 if thorough else 6000, 5 if thorough else 4)
+    rep, out = record(ctx, uni, 20000 if thorough else 5000, 5 if thorough else 4)
     absorb(ctx, rep, "record", devs)
     verdicts, recs = judge(ctx, out, devs)
     judge_verdicts(ctx, verdicts, recs, devs, "record")
